@@ -7,7 +7,7 @@ from props.c09 import KEYMAPS, kmtag, shape, rest_sig
 
 PROP = 'C11'
 LEVEL = 'exploration'
-RULE = ("cases = generated signature x kind {function, method} x ignore spec (subset of parameter names incl. keyword-only ones, positional indices "
+RULE = ("cases = generated signature x kind {function, method (first argument passed explicitly, or a REAL method installed in a class and called through instances that differ in identity and truthiness), partial} x ignore spec (subset of parameter names incl. keyword-only ones, positional indices "
         "incl. indices beyond the named parameters, '*', '**', the instance name for methods; given as tuple, list or bare str/int) x keymap x path "
         "{f.key, klepto.keygen, klepto._keygen+keymap, real calls} x pair of calls (B2 = B1 with 1-3 edits: change a named / keyword-only / extra "
         "positional / extra keyword value, add or drop extras). Oracle = independent selector over Python's own binding: a position is ignored iff its "
